@@ -58,6 +58,10 @@ struct PropIr {
     required: bool,
 }
 
+/// Marker for `any` / `unknown` among the inferred runtime types: a prop that may hold any
+/// value must not be checked at all (in a `type: [...]` array, `null` only accepts `null`).
+const ANY_TYPE: &str = "any";
+
 /// Type resolution follows user-declared aliases and interfaces; beyond this nesting depth the
 /// types are considered circular (`type T = T`, `interface I extends I`, ...).
 const MAX_TYPE_RESOLUTION_DEPTH: usize = 64;
@@ -262,8 +266,9 @@ where
                         let types = if let Some(type_ann) = type_ann {
                             self.infer_runtime_type(&type_ann.type_ann)
                         } else {
+                            // no annotation: implicitly `any`
                             let mut types = IndexSet::with_capacity(1);
-                            types.insert(None);
+                            types.insert(Some(Atom::from(ANY_TYPE)));
                             types
                         };
                         if let Some((_, ir)) = irs
@@ -294,8 +299,9 @@ where
                         let types = if let Some(type_ann) = type_ann {
                             self.infer_runtime_type(&type_ann.type_ann)
                         } else {
+                            // no annotation: implicitly `any`
                             let mut types = IndexSet::with_capacity(1);
-                            types.insert(None);
+                            types.insert(Some(Atom::from(ANY_TYPE)));
                             types
                         };
                         if let Some((_, ir)) = irs
@@ -351,6 +357,10 @@ where
             props: irs
                 .into_iter()
                 .map(|(prop_name, mut ir)| {
+                    if ir.types.contains(&Some(Atom::from(ANY_TYPE))) {
+                        ir.types.clear();
+                        ir.types.insert(None);
+                    }
                     let mut props = vec![
                         PropOrSpread::Prop(Box::new(Prop::KeyValue(KeyValueProp {
                             key: PropName::Ident(quote_ident!("type")),
@@ -1038,6 +1048,9 @@ where
                 }
                 TsKeywordTypeKind::TsSymbolKeyword => {
                     runtime_types.insert(Some(atom!("Symbol")));
+                }
+                TsKeywordTypeKind::TsAnyKeyword | TsKeywordTypeKind::TsUnknownKeyword => {
+                    runtime_types.insert(Some(Atom::from(ANY_TYPE)));
                 }
                 _ => {
                     runtime_types.insert(None);
